@@ -1,7 +1,6 @@
 CONSTANTS
   MaxToks = 2
   Big = FALSE
-  NRand = 2500
-  Seed = 1
+  NRand = 4000
 INIT GenInit
 NEXT GenNext
